@@ -15,10 +15,24 @@ set_option linter.unusedSimpArgs false
 namespace Rigo.GenEq
 open Rigo Rigo.Gen
 
+/-- the Go payload object of a model payload (`ITrxPayload`: nil, the dynamic types the controllers
+    test for, anything else); the options of a proposal are their raw bytes (the parses are ghost data
+    of the model, supplied to the generated functions as the `json.Unmarshal` oracle) -/
+def payOf : Payload → TrxPayload
+  | .none => .nil
+  | .unstaking h => .unstaking { hash := h }
+  | .withdraw r => .withdraw { reqAmt := r }
+  | .proposal msg start period applying optType opts =>
+      .proposal { message := msg, start := start, period := period, applying := applying, optType := optType,
+                  options := opts.map (·.raw) }
+  | .voting h c => .voting { hash := h, choice := c }
+  | .contract _ => .other
+  | .setdoc name url _ _ => .setdoc { name := name, url := url }
+
 /-- the Go transaction of a model transaction -/
 def trxOf (tx : TxIn) : Trx :=
   { version := tx.version, time := tx.time, nonce := tx.nonce, from_ := tx.from_, to := tx.to,
-    amount := tx.amount, gas := tx.gas, gasPrice := tx.price, type := tx.type }
+    amount := tx.amount, gas := tx.gas, gasPrice := tx.price, type := tx.type, payload := payOf tx.payload }
 
 theorem maxInt64_eq : maxInt64 = 9223372036854775807 := by decide
 
